@@ -1,6 +1,7 @@
 package checks
 
 import (
+	"runtime"
 	"context"
 	"errors"
 	"fmt"
@@ -432,6 +433,8 @@ func evalC03(c *Ctx, cs *Case) {
 	}
 	if fsOK {
 		c03FS(c, cs, f, root, doc, fkey, r, viol)
+		c03Hostile(c, cs, root, fkey, r, viol)
+		c03BadFile(c, cs, root, doc, fkey, viol)
 	}
 	// invalid roots
 	c03Invalid(c, cs, root, fkey, viol)
@@ -605,5 +608,103 @@ func c03Invalid(c *Ctx, cs *Case, root *model.Node, fkey string, viol func(entry
 	}
 	if d := mon.Diff(before, j.Snap()); len(d) != 0 {
 		viol("*FromRoot", "invalid-root.changed-filesystem", "", map[string]any{"diff": d})
+	}
+}
+
+var c03Quiet = mon.NewLeakMonitor()
+
+// c03Hostile: the same tree with ONE name replaced by something that is not a single path
+// element, handed to mkdir and verify through both families, in simple and in massive mode.
+// Both families must make the same accept/reject decision and leave the same filesystem.
+func c03Hostile(c *Ctx, cs *Case, root *model.Node, fkey string, r *gen.Rand, viol func(entry, clause, sig string, det map[string]any)) {
+	depths, names := gen.Depths(model.Forest{root})
+	pos := r.Intn(len(names))
+	bad := []string{"sub/leaf", "..", "a//b", "./x"}[r.Intn(4)]
+	if pos > 0 && r.Chance(1, 4) {
+		bad = "."
+	}
+	nn := append([]string(nil), names...)
+	nn[pos] = bad
+	h := gen.FromDepths(depths, nn)
+	if len(h) != 1 {
+		return
+	}
+	hdoc := gen.Spell(h, gen.Canonical)
+	for _, op := range []string{"mkdir", "verify"} {
+		for _, massive := range []bool{false, true} {
+			mode := map[bool]string{true: "massive", false: "simple"}[massive]
+			var errs [2]error
+			var pans [2]any
+			var snaps [2]mon.Snapshot
+			for fam := 0; fam < 2; fam++ {
+				j, err := mon.NewJail(c.TmpDir, true)
+				if err != nil {
+					return
+				}
+				opts := fsOpts(j.Target, nil, false, false, massive, false)
+				rt := 1 - fam // fam 0 = From-Root
+				base := runtime.NumGoroutine()
+				var o Outcome
+				if op == "mkdir" {
+					o = mkdirCall(mkdirRoutes[rt], hdoc, h[0], opts)
+				} else {
+					o = verifyCall(verifyRoutes[rt], hdoc, h[0], opts)
+				}
+				if massive {
+					c03Quiet.Quiesce(base)
+				}
+				errs[fam], pans[fam] = o.Err, o.Panic
+				snaps[fam], _ = mon.Snap(j.Target)
+				j.Remove()
+			}
+			c.Eval(gen.HashString(fkey+"\x00hostile"+op+mode+bad+strconv.Itoa(pos)), true)
+			c.Count("hostile_name_pairs", 1)
+			entry := map[string]string{"mkdir": "MkdirFromRoot", "verify": "VerifyFromRoot"}[op] + "[" + mode + "]"
+			det := map[string]any{"tree": gen.Spell(h, gen.Canonical), "bad_name": bad, "position": pos, "root_err": errStr(errs[0]), "markdown_err": errStr(errs[1])}
+			switch {
+			case pans[0] != nil || pans[1] != nil:
+				viol(entry, "panic", "hostile-name", det)
+			case (errs[0] == nil) != (errs[1] == nil):
+				viol(entry, "fromroot.differs-from-markdown", op+"/invalid-name", det)
+			case !massive && len(mon.Diff(snaps[0], snaps[1])) != 0:
+				det["diff"] = mon.Diff(snaps[1], snaps[0])
+				viol(entry, "fromroot.differs-from-markdown", op+"/invalid-name/filesystem", det)
+			}
+		}
+	}
+}
+
+// c03BadFile: both families write to the same kind of failing *os.File; they must agree on
+// whether that is an error.
+func c03BadFile(c *Ctx, cs *Case, root *model.Node, doc, fkey string, viol func(entry, clause, sig string, det map[string]any)) {
+	kind := int(cs.Seed % numBadFiles)
+	for mi, opts := range [][]gtree.Option{nil, BranchOptions(3), {gtree.WithEncodeJSON()}} {
+		var errs [2]error
+		name := ""
+		for fam := 0; fam < 2; fam++ {
+			bf, n, cleanup := badFile(c.TmpDir, kind)
+			if bf == nil {
+				return
+			}
+			name = n
+			var o Outcome
+			if fam == 0 {
+				g := BuildRoot(root)
+				o = Guard(func() error { return gtree.OutputFromRoot(bf, g, opts...) })
+			} else {
+				o = Guard(func() error { return gtree.OutputFromMarkdown(bf, MDReader(doc), opts...) })
+			}
+			cleanup()
+			if o.Panic != nil {
+				viol("OutputFromRoot", "panic", "failing-file", map[string]any{"file": n, "stack": o.Stack})
+				return
+			}
+			errs[fam] = o.Err
+		}
+		c.Eval(gen.HashString(fkey+"\x00badfile"+strconv.Itoa(mi)+name), true)
+		c.Count("failing_file_pairs", 1)
+		if (errs[0] == nil) != (errs[1] == nil) {
+			viol("OutputFromRoot", "fromroot.differs-from-markdown", "failing-file", map[string]any{"file": name, "mode": mi, "root_err": errStr(errs[0]), "markdown_err": errStr(errs[1])})
+		}
 	}
 }
